@@ -114,15 +114,18 @@ pub fn gen_cfg(r: &mut Rng, rg: &Regime) -> GenCfg {
         }
     }
     let ask_attrs: Vec<String> = if r.chance(rg.attrs_pct) {
-        match r.below(3) {
+        match r.below(5) {
             0 => vec!["kyc".to_string()],
             1 => vec!["kyc".to_string(), "acc".to_string()],
+            // a required list may name an attribute more than once; holding it once is holding it
+            3 => vec!["kyc".to_string(), "kyc".to_string()],
+            4 => vec!["acc".to_string(), "kyc".to_string(), "acc".to_string(), "kyc".to_string()],
             _ => vec!["acc".to_string(), "x".to_string()],
         }
     } else {
         vec![]
     };
-    let bid_attrs = if r.chance(rg.attrs_pct) { vec!["kyc".to_string(), "acc".to_string()] } else { vec![] };
+    let bid_attrs = if r.chance(rg.attrs_pct) { if r.chance(25) { vec!["kyc".to_string(), "kyc".to_string(), "acc".to_string()] } else { vec!["kyc".to_string(), "acc".to_string()] } } else { vec![] };
     GenCfg { prec, inc, convs, quotes, approvers, executors, ask_fee, bid_fee, ask_attrs, bid_attrs, markers, pool }
 }
 
@@ -179,6 +182,27 @@ pub fn gen_price(r: &mut Rng, rg: &Regime, prec: u32, size_hint: u128) -> String
     let m = 1 + r.below128(mmax);
     let sc = if prec == 0 || r.chance(45) { 0 } else { r.below(prec.min(9) as u64 + 1) as u32 };
     fmt_price(m, sc)
+}
+
+/// the same price written with zeros added to its fraction (up to 28 places when the spelled mantissa
+/// still fits a 96-bit decimal): numerically equal, textually different
+pub fn pad_price(r: &mut Rng, p: &str) -> String {
+    let (i, f) = match p.split_once('.') {
+        Some((i, f)) => (i.to_string(), f.to_string()),
+        None => (p.to_string(), String::new()),
+    };
+    if !i.bytes().all(|b| b.is_ascii_digit()) || !f.bytes().all(|b| b.is_ascii_digit()) || i.is_empty() {
+        return p.to_string();
+    }
+    let want = *r.pick(&[f.len() + 1, 9, 18, 19, 27, 28, 28]);
+    let int_digits = i.trim_start_matches('0').len();
+    // keep the spelled mantissa below 7.9e28: at most 28 digits in all, or 29 starting with 1..6
+    let max_frac = if int_digits == 0 { 28 } else { (28usize).saturating_sub(int_digits) + if i.trim_start_matches('0').as_bytes()[0] < b'7' { 1 } else { 0 } };
+    let n = want.min(max_frac).min(28);
+    if n <= f.len() {
+        return p.to_string();
+    }
+    format!("{}.{}{}", i, f, "0".repeat(n - f.len()))
 }
 
 pub fn exec_op(sender: &str, funds: Vec<(String, u128)>, msg: Value) -> Op {
@@ -255,12 +279,15 @@ pub fn gen_step(r: &mut Rng, rg: &Regime, w: &World, g: &mut GenState) -> Op {
         let sender = r.pick(&pool).clone();
         let quote = if cfg.quotes.is_empty() { "q0".to_string() } else { r.pick(&cfg.quotes).clone() };
         let id = fresh_id(r, g, &book, true);
-        return exec_op(&sender, funds_for(w, &base, size), json!({"create_ask": {"id": id, "base": base, "quote": quote, "price": gen_price(r, rg, cfg.prec as u32, size), "size": size.to_string()}}));
+        let price = gen_price(r, rg, cfg.prec as u32, size);
+        let price = if r.chance(4) { pad_price(r, &price) } else { price };
+        return exec_op(&sender, funds_for(w, &base, size), json!({"create_ask": {"id": id, "base": base, "quote": quote, "price": price, "size": size.to_string()}}));
     }
     if kind < 36 || (bids.is_empty() && kind < 60) {
         let size = if rg.narrow { *r.pick(NARROW_SIZES) } else { cfg.inc * (1 + { let lm = if r.chance(10) { rg.lots_max * 8 } else { rg.lots_max }; r.below(lm) } as u128) };
         // bias towards crossing an existing ask
         let price = if !asks.is_empty() && r.chance(45) { r.pick(&asks).price.clone() } else { gen_price(r, rg, cfg.prec as u32, size) };
+        let price = if r.chance(4) { pad_price(r, &price) } else { price };
         let p = match parse_dec(&price) {
             Some(p) => p,
             None => return exec_op(&exec, vec![], json!({"expire_bid": {"id": uuid(1)}})),
@@ -299,6 +326,7 @@ pub fn gen_step(r: &mut Rng, rg: &Regime, w: &World, g: &mut GenState) -> Op {
             _ => (*r.pick(&asks), *r.pick(&bids)),
         };
         let price = if r.chance(50) { a.price.clone() } else { b.price.clone() };
+        let price = if r.chance(8) { pad_price(r, &price) } else { price };
         let arem = a.size;
         let brem = b.rem_base().max(0) as u128;
         let m = arem.min(brem).max(1);
@@ -431,8 +459,10 @@ pub fn gen_modify(r: &mut Rng, cfg: &Cfg, book: &Book, pool: &[String], exec: &s
 }
 
 fn rate_variant_equal(r: &mut Rng, rate: &str) -> String {
-    match r.below(4) {
+    match r.below(5) {
         0 => rate.to_string(),
+        // padded out to 30 fractional digits: same value, longer than a 96-bit decimal spells it
+        4 => { let (i, f) = rate.split_once('.').unwrap_or((rate, "")); if f.len() < 30 && f.bytes().all(|b| b.is_ascii_digit()) { format!("{}.{}{}", i, f, "0".repeat(30 - f.len())) } else { rate.to_string() } }
         1 => if rate.contains('.') { format!("{}0", rate) } else { format!("{}.0", rate) },
         2 => format!("0{}", rate),
         _ => if rate.contains('.') { format!("{}000", rate) } else { format!("{}.000", rate) },
